@@ -7,6 +7,22 @@ V = Path(__file__).resolve().parent.parent
 props = [json.loads(l) for l in (V / "properties.jsonl").read_text().splitlines() if l.strip()]
 
 CHECKS = {
+    "C14": dict(
+        level="model_checking", design_ref="DESIGN.md §4 C14, §11",
+        technique="TLA+ spec NetworkEdit.tla model-checked with TLC over all bounded edit histories; TLC-simulated histories replayed on real "
+                  "Network objects; recorded API histories (random, targeted, `naunet extend`) validated by Trace_NetworkEdit.tla",
+        text="TLC checks CacheConsistent / AllowedRespected / SkippedDisallowed / NothingLost after every action of every history of the "
+             "bounded universe; the recorder wraps the public Network entry points and every real call (spec-driven, random long histories, "
+             "CLI runs) must be the step the specification takes, with all invariants evaluated after each step.",
+        note="species classes are those of the real Species.__eq__; reaction objects are not shared between list positions"),
+    "C15": dict(
+        level="model_checking", design_ref="DESIGN.md §4 C15, §11",
+        technique="TLA+ spec NetworkEdit.tla (FindDup/RemoveDup, coded first-seen table vs declarative definition) model-checked with TLC; "
+                  "real find_duplicate_reaction runs validated by Trace_NetworkEdit.tla",
+        text="TLC compares the coded first-seen hash table with the declarative definition (equivalent to an earlier reaction, first member "
+             "of every class) for all lists of the bounded universe in the four modes, incl. the UNKNOWN-typed wildcard universe; every real "
+             "report is checked against the model and against the declarative definition by TLC.",
+        note="hash keys of reactions are modelled as the multisets of species classes (the repaired __hash__)"),
     "C19": dict(
         level="model_checking", design_ref="DESIGN.md §4 C19, §11",
         technique="TLA+ spec Solve.tla/SolveOdeint.tla model-checked with TLC; TLC-simulated behaviours replayed as fault scripts "
